@@ -579,7 +579,12 @@ inline void gen_ids(Choice& ch, Spec& s, const GenOpts& o) {
                 p = ch.draw64() | 1;
             }
             if (++guard > 50) {
-                p = 100000 + c * 7 + guard;
+                // a choice source that ran dry keeps drawing 0: take the
+                // smallest value of the scheme that is still free
+                for (p = s.id_scheme == "typeinfo" ? 0 : 1;
+                     std::find(used.begin(), used.end(), p) != used.end();
+                     ++p) {
+                }
             }
         } while (std::find(used.begin(), used.end(), p) != used.end());
         used.push_back(p);
